@@ -65,8 +65,11 @@ class StmtMixin:
             out.append(ind + '{'); i2 = ind + '  '
             if init: self.stmt(init, out, i2)
             if condvar: raise Unsupported('for with condition variable')
-            c = self.expr(cond) if cond else '1'; self.no_pre('for condition', n)
-            i = self.expr(inc) if inc else ''; self.no_pre('for increment', n)
+            self.inline_checks += 1
+            try:
+                c = self.expr(cond) if cond else '1'; self.no_pre('for condition', n)
+                i = self.expr(inc) if inc else ''; self.no_pre('for increment', n)
+            finally: self.inline_checks -= 1
             out.append(i2 + 'for (; %s; %s)' % (c, i))
             out.append(i2 + self.loop_marker())
             self.block(body, out, i2)
@@ -74,7 +77,9 @@ class StmtMixin:
         elif k == 'WhileStmt':
             ks = n['inner']
             if len(ks) == 3: raise Unsupported('while with condition variable')
-            c = self.expr(ks[0]); self.no_pre('while condition', n)
+            self.inline_checks += 1
+            try: c = self.expr(ks[0]); self.no_pre('while condition', n)
+            finally: self.inline_checks -= 1
             out.append(ind + 'while (%s)' % c)
             out.append(ind + self.loop_marker())
             self.block(ks[-1], out, ind)
@@ -83,7 +88,9 @@ class StmtMixin:
             out.append(ind + 'do')
             out.append(ind + self.loop_marker())
             self.block(body, out, ind)
-            c = self.expr(cond); self.no_pre('do-while condition', n)
+            self.inline_checks += 1
+            try: c = self.expr(cond); self.no_pre('do-while condition', n)
+            finally: self.inline_checks -= 1
             out.append(ind + 'while (%s);' % c)
         elif k == 'CXXForRangeStmt':
             self.range_for(n, out, ind)
@@ -149,6 +156,23 @@ class StmtMixin:
         t = self.tyq(d['type'])
         name = self.local_name(d)
         init = self.var_init_expr(d)
+        lc = self.u.get('local_caps', {}).get('%s.%s' % (self.cur_cname, name)) or self.u.get('local_caps', {}).get(name)
+        if lc and t.kind == 'vec' and not t.ref:
+            cn2 = '%s_%s' % (t.c, cident(lc))
+            mac = 'CC_DEFINE_VEC(%s,%s,%s)' % (cn2, t.elem.c, lc)
+            if t.elem.kind == 'scalar': mac += '\nCC_DEFINE_VEC_SCALAR(%s,%s,%s)' % (cn2, t.elem.c, lc)
+            self.containers.setdefault(cn2, mac)
+            t = Ty('vec', cn2, elem=t.elem)
+            self.var_ty[d['id']] = t
+            self.rules['local-capacity-override'] += 1
+            core = self.skip(init) if init is not None else None
+            if core is None or core.get('kind') in ('CXXConstructExpr', 'InitListExpr', 'CXXTemporaryObjectExpr'):
+                e = self.construct(t, core.get('inner', []) if core else [], d)
+                self.flush(out, ind)
+                out.append(ind + '%s %s = %s;' % (t.c, name, e))
+                self.vars[d['id']] = ('val', name)
+                return
+            raise Unsupported('capacity override on %s with a non-constructor initializer' % name)
         if d.get('storageClass') == 'static':
             # static local: treated like a static member
             cn = self.static_var_local(d)
@@ -194,6 +218,8 @@ class StmtMixin:
         if t.kind == 'iter':
             c = self.find_container_in(init)
             if c is not None: self.iter_of[d['id']] = c
+            ct = self.find_container_type_in(init)
+            if ct is not None: self.iter_ty[d['id']] = ct
 
     def find_container_in(self, n):
         c = self.skip(n)
@@ -207,6 +233,20 @@ class StmtMixin:
             return self.iter_of.get(c['referencedDecl']['id'])
         if c.get('kind') in ('CXXConstructExpr',) and c.get('inner'):
             return self.find_container_in(c['inner'][0])
+        return None
+
+    def find_container_type_in(self, n):
+        c = self.skip(n)
+        if c.get('kind') in ('CallExpr', 'CXXMemberCallExpr'):
+            got = self.container_type(c)
+            if got is not None: return got
+            for a in c.get('inner', [])[1:]:
+                g = self.find_container_type_in(a)
+                if g is not None: return g
+        if c.get('kind') == 'DeclRefExpr':
+            return self.iter_ty.get(c['referencedDecl']['id'])
+        if c.get('kind') in ('CXXConstructExpr',) and c.get('inner'):
+            return self.find_container_type_in(c['inner'][0])
         return None
 
     def local_name(self, d):
@@ -225,14 +265,14 @@ class StmtMixin:
         if init: raise Unsupported('range-for with init')
         rv = rangedecl['inner'][0]
         rinit = self.var_init_expr(rv)
-        rt = self.tyq(rinit['type'])
+        rt = self.etype(rinit)
         lv = loopvar['inner'][0]
         try: lt = self.tyq(lv['type'])
         except Unsupported: lt = None
         h = self.u_hook('range_for', n, rt, rinit, lv, lt, body, out, ind)
         if h is not None: return
         core = self.skip(rinit)
-        if rt.kind not in ('sv', 'vec'):
+        if rt.kind not in ('sv', 'vec', 'uset'):
             raise Unsupported('range-for over %s (%s) at %s' % (rt.c, rt.kind, self.where(n)))
         out.append(ind + '{'); i2 = ind + '  '
         if core.get('valueCategory') == 'lvalue' or core.get('kind') in ('DeclRefExpr', 'MemberExpr'):
@@ -258,7 +298,9 @@ class StmtMixin:
         else:
             el = rt.elem
             out.append(i2 + 'size_t %s;' % ix)
-            out.append(i2 + '%s.iter = %s.iter + 1;' % (rng, rng))
+            ghost_iter = not rt.const and not (self.cur_this_const and ('this_' in rng))
+            if ghost_iter: out.append(i2 + '%s.iter = %s.iter + 1;' % (rng, rng))
+            else: self.rules['range-for:const-range(no ghost flag)'] += 1
             out.append(i2 + 'for (%s = 0; %s < %s.size; ++%s)' % (ix, ix, rng, ix))
             out.append(i2 + self.loop_marker())
             out.append(i2 + '{'); i3 = i2 + '  '
@@ -268,12 +310,12 @@ class StmtMixin:
             else:
                 out.append(i3 + '%s %s = %s.data[%s];' % (el.c, name, rng, ix))
                 self.vars[lv['id']] = ('val', name)
-            self.rules['range-for:vector'] += 1
+            self.rules['range-for:vector' if rt.kind == 'vec' else 'range-for:unordered_set'] += 1
             self.range_cleanup.append(None)
             self.stmt(body, out, i3)
             self.range_cleanup.pop()
             out.append(i2 + '}')
-            out.append(i2 + '%s.iter = %s.iter - 1;' % (rng, rng))
+            if ghost_iter: out.append(i2 + '%s.iter = %s.iter - 1;' % (rng, rng))
             self.note_early_exit(body, n)
         out.append(ind + '}')
 
@@ -294,13 +336,14 @@ class StmtMixin:
         owner = self.owner_record(d) if k != 'FunctionDecl' else None
         self.cur_fn = self.qname.get(d['id'], d.get('name'))
         self.cur_cname = cn
-        self.vars = {}; self.pre = []; self.loopn = 0; self.iter_of = {}
+        self.vars = {}; self.pre = []; self.loopn = 0; self.iter_of = {}; self.iter_ty = {}; self.inline_checks = 0; self.var_ty = {}
         self.range_cleanup = []
         self.ctor_mode = (k == 'CXXConstructorDecl')
+        self.cur_this_const = (k == 'CXXMethodDecl' and self.is_const_method(d))
         params = []
         self.this_mode = None
         is_lambda = owner is not None and not owner.get('name')
-        if owner is not None and d.get('storageClass') != 'static' and not self.ctor_mode and not is_lambda:
+        if owner is not None and not self.is_static_method(d) and not self.ctor_mode and not is_lambda:
             rc = self.rec_cname(owner)
             if not self.is_const_method(d):
                 params.append('%s* this_' % rc); self.this_mode = 'ptr'
@@ -354,6 +397,13 @@ class StmtMixin:
         self.bodies[cn] = '\n'.join(out)
         self.rules['function'] += 1
 
+    def is_static_method(self, d):
+        x = d
+        while x is not None:
+            if x.get('storageClass') == 'static': return True
+            x = self.byid.get(x.get('previousDecl')) if 'previousDecl' in x else None
+        return False
+
     def last_file(self, d):
         return None
 
@@ -376,7 +426,7 @@ class StmtMixin:
     def emit_default_ctor(self, cn, r):
         rc = self.rec_cname(r)
         self.cur_fn = rc + '::<default ctor>'; self.cur_cname = cn
-        self.vars = {}; self.pre = []; self.loopn = 0; self.iter_of = {}; self.this_mode = 'ptr'; self.ctor_mode = True
+        self.vars = {}; self.pre = []; self.loopn = 0; self.iter_of = {}; self.iter_ty = {}; self.inline_checks = 0; self.var_ty = {}; self.this_mode = 'ptr'; self.ctor_mode = True
         self.range_cleanup = []
         out = ['%s %s(void)' % (rc, cn), '/*@CONTRACT:%s@*/' % cn, '{', '  %s self_;' % rc, '  %s* this_ = &self_;' % rc]
         for f in r.get('inner', []):
@@ -391,8 +441,10 @@ class StmtMixin:
         lines = ['typedef struct %s {' % rc]
         nf = 0
         for b in r.get('bases', []):
-            bt = self.ty(b['type'].get('desugaredQualType') or b['type']['qualType'])
-            if bt.kind == 'rec':
+            try: bt = self.ty(b['type'].get('desugaredQualType') or b['type']['qualType'])
+            except Unsupported:
+                self.dropped['base class %s (assumed field-less: CRTP/interface)' % b['type']['qualType']] += 1; continue
+            if bt.kind == 'rec' and any(f.get('kind') == 'FieldDecl' for f in bt.rec.get('inner', [])):
                 raise Unsupported('base class with fields: %s' % bt.c)
         for f in r.get('inner', []):
             if f.get('kind') != 'FieldDecl': continue
